@@ -4,7 +4,9 @@ Engine E4 (environment answers): the real BufferedSocket / NetstringSocket run a
 virtual clock (module-global seam `socketutils.time`).  Enumerated exhaustively: every byte stream up to a length bound
 over {a, |, -}, every composition of it into recv() chunks, every placement of timeouts (socket.timeout answers and clock
 jumps past the deadline), recvsize/maxsize settings and every call program up to length 2; on the send side every
-partial-send pattern and timeout placement.  Oracles: an independent whole-stream reference model (adaptive to recv's
+partial-send pattern and timeout placement.  Also: the alphabet mapped to non-ASCII / non-UTF-8 / NUL bytes for the
+recv_until programs, every byte value as a delimiter and as a netstring payload, and calls refused for their arguments
+(non-zero flags -> ValueError) placed before and after ordinary calls (no state may be left by a refused call).  Oracles: an independent whole-stream reference model (adaptive to recv's
 legitimately nondeterministic length), the same implementation fed the stream in one piece, and the conservation
 invariant after every call.
 """
@@ -110,6 +112,19 @@ CALLS = [
 ]
 INF = 1 << 60
 
+# a call that the class documents as refused (non-zero flags -> ValueError), mixed with ordinary calls: whatever it
+# raises, the stream must be conserved and the ordinary calls around it must see the same stream
+REFUSED_CALLS = [('recv', 2, 1)]
+
+# byte values: the stream alphabet (a, |, -) mapped to bytes that are not ASCII / not valid UTF-8 / NUL / parts of one
+# multi-byte UTF-8 character / CR LF, so that delimiters, data and the texts of Timeout / ConnectionClosed /
+# MessageTooLong are built from arbitrary byte values
+TRANSLATIONS = [b'\x00\xff\x80', b'a\xc3\xa9', b'\xff\r\n']
+
+
+def translate_call(call, table):
+    return tuple(x.translate(table) if isinstance(x, bytes) else x for x in call)
+
 
 class Model:
     """Whole-stream reference: looks at the complete remaining stream."""
@@ -176,6 +191,13 @@ def do_call(bs, call, sock, max_retries):
                 v = bs.recv_size(call[1])
             elif k == 'peek':
                 v = bs.peek(call[1])
+            elif k == 'recv' and len(call) > 2:
+                # recv with a non-zero flags argument: documented as not supported.  A ValueError is a refusal: the
+                # call must then have had no effect on the stream (conservation is checked by the caller)
+                try:
+                    v = bs.recv(call[1], call[2])
+                except ValueError:
+                    return ('refused', 'ValueError'), n_to
             elif k == 'recv':
                 v = bs.recv(call[1])
             elif k == 'recv_close':
@@ -210,7 +232,9 @@ def run_recv(stream, items, recvsize, maxsize, program, timeout=10.0):
     for call in program:
         got, _ = do_call(bs, call, sock, n_special + 1)
         results.append(got)
-        if call[0] == 'recv':
+        if call[0] == 'recv' and got[0] == 'refused':
+            pass            # nothing handed out: the model does not move; conservation below must still hold
+        elif call[0] == 'recv':
             why = model.check_recv(call[1], got)
             if why:
                 return results, ('recv prefix property', 'non-empty prefix of the remaining stream', why, call)
@@ -279,10 +303,38 @@ def recv_shard(arg):
                                 t.count(nontrivial=(len(sizes) > 1 or bool(sp)), sample=case)
                                 if prob:
                                     what, exp, got, call = prob
-                                    t.bad('C12|call:%s|%s' % (call[0], what), case, exp, got)
+                                    t.bad('C12|call:%s%s|%s' % (call[0], '(flags)' if call[0] == 'recv' and len(call) > 2
+                                                                else '', what), case, exp, got)
                                 elif ref_whole is not None and res != ref_whole:
                                     t.bad('C12|program|differs from the same implementation fed the stream in one piece',
                                           case, ref_whole, res)
+    finally:
+        sumod.time = saved_time
+    return t
+
+
+def delim_bytes_shard(values):
+    t = inputs.Tally()
+    sumod = su()
+    saved_time = sumod.time
+    try:
+        for v in values:
+            f = b'a' if v != 0x61 else b'b'
+            for d in (bytes([v]), bytes([v, 255 - v])):
+                if f in d:
+                    f = b'c'
+                stream = f + d + f
+                for with_d in (False, True):
+                    program = (('recv_until', d, with_d), ('recv_close',))
+                    for sizes in inputs.compositions(len(stream)):
+                        for sp in placements(len(sizes), 1):
+                            res, prob = run_recv(stream, build_items(stream, sizes, sp), None, None, program)
+                            case = {'stream': stream, 'chunks': sizes, 'specials': [list(x) for x in sp],
+                                    'recvsize': None, 'maxsize': None, 'program': [list(c) for c in program]}
+                            t.count(nontrivial=(len(sizes) > 1 or bool(sp)), sample=case)
+                            if prob:
+                                what, exp, got, call = prob
+                                t.bad('C12|call:%s|%s' % (call[0], what), case, exp, got)
     finally:
         sumod.time = saved_time
     return t
@@ -292,7 +344,10 @@ def recv_shard(arg):
 # send side: exhaustive DFS over the socket's answers (accepted byte counts, timeouts, clock jumps)
 
 SEND_OPS = [('send', b'ab'), ('send', b'c'), ('sendall', b'def'), ('buffer', b'gh'), ('buffer', b''), ('flush',),
-            ('send', b''), ('send', b'ijkl')]
+            ('send', b''), ('send', b'ijkl'),
+            # calls refused for their arguments (non-zero flags are documented as not supported -> ValueError): the
+            # payload of a call that was refused is not part of the accepted stream and must never reach the wire
+            ('send', b'X\xff', 1), ('sendall', b'\x00Y', socket.MSG_OOB)]
 
 
 def run_send(program, script, max_timeouts):
@@ -313,9 +368,16 @@ def run_send(program, script, max_timeouts):
         before_sent = len(sock.sent)
         n_to = 0
         first = True
+        refused = False
         while True:
             try:
-                if op[0] in ('send', 'sendall'):
+                if op[0] in ('send', 'sendall') and len(op) > 2 and first:
+                    try:
+                        ret = getattr(bs, op[0])(op[1], op[2])
+                        accepted += op[1]       # flags tolerated: then it is an ordinary send
+                    except ValueError:
+                        refused = True
+                elif op[0] in ('send', 'sendall'):
                     # a retry after Timeout must not offer the payload again: it is already in the send buffer
                     ret = getattr(bs, op[0])(op[1] if first else b'')
                     if first:
@@ -340,6 +402,10 @@ def run_send(program, script, max_timeouts):
             except Exception as e:
                 return points, ('unexpected exception', 'no exception', type(e).__name__, op)
         total = bytes(sock.sent) + bs.getsendbuffer()
+        if refused:
+            if total != accepted or len(sock.sent) != before_sent:
+                return points, ('a call refused with ValueError changed the send buffer / the wire', accepted, total, op)
+            continue
         if total != accepted:
             return points, ('conservation: sent + send buffer != accepted payloads', accepted, total, op)
         if op[0] in ('send', 'sendall', 'flush'):
@@ -368,7 +434,7 @@ def send_shard(arg):
                                        if i < len(points)), sample=case)
                 if prob:
                     what, exp, got, op = prob
-                    t.bad('C12|send:%s|%s' % (op[0], what), case, exp, got)
+                    t.bad('C12|send:%s%s|%s' % (op[0], '(flags)' if len(op) > 2 else '', what), case, exp, got)
                     continue
                 n_special = sum(1 for k in script if isinstance(k, str))
                 for i in range(len(script), len(points)):
@@ -585,10 +651,32 @@ def run(ctx):
             ms = maxspecial if len(s) <= 4 else 1
             for j in range(0, len(pp), 45):
                 shards.append(([s], pp[j:j + 45], recvsizes, maxsizes, ms))
+    # refused calls: alone, before and after every ordinary call
+    rprogs = [p for r in REFUSED_CALLS for p in [(r,)] + [(r, c) for c in calls] + [(c, r) for c in calls]]
+    rstreams = [x for x in streams if len(x) <= (3 if quick else 4)]
+    for i in range(0, len(rstreams), 4):
+        shards.append((rstreams[i:i + 4], rprogs, recvsizes, maxsizes, maxspecial if quick else 1))
+    # other byte values: recv_until programs on translated streams
+    ru = [c for c in calls if c[0] == 'recv_until']
+    for tr in TRANSLATIONS:
+        table = bytes.maketrans(b'a|-', tr)
+        ru1 = [(translate_call(c, table),) for c in ru]
+        ru2 = [(translate_call(a, table), translate_call(b, table)) for a in ru for b in ru]
+        l1 = [x.translate(table) for x in streams if len(x) <= (3 if quick else 4)]
+        l2 = [x.translate(table) for x in streams if len(x) <= (2 if quick else 3)]
+        for i in range(0, len(l1), 4):
+            shards.append((l1[i:i + 4], ru1, recvsizes, maxsizes, 1))
+        for i in range(0, len(l2), 4):
+            shards.append((l2[i:i + 4], ru2, recvsizes, maxsizes, 1))
     ctx.rng.shuffle(shards)
     inputs.run_shards(ctx, recv_shard, shards, part='receive', rule=(
         'stream x composition into chunks x timeout/clock-jump placement x recvsize x maxsize x call program; '
         'non-trivial = more than one chunk or at least one timeout'))
+    # every byte value as a delimiter (alone and as the first byte of a two-byte delimiter), framed out of a stream
+    # under every chunking and every single timeout / clock jump / socket error placement
+    inputs.run_shards(ctx, delim_bytes_shard, [list(range(i, 256, 16)) for i in range(16)], part='delimiter-byte-values',
+                      rule='recv_until(d) then recv_close() for d = every single byte value and 256 two-byte delimiters, '
+                      'x composition of the stream x placement of one timeout/jump/error; default recvsize and maxsize')
     # send side
     nops = 2 if quick else 3
     sprogs = [p for n in range(1, nops + 1) for p in itertools.product(SEND_OPS, repeat=n)]
@@ -602,6 +690,7 @@ def run(ctx):
     lists = [[p] for p in pl] + [[p, q] for p in pl[:31] for q in pl[:31] if len(p) + len(q) <= 3]
     if not quick:
         lists += [[p, q, r] for p in pl[:6] for q in pl[:6] for r in pl[:6]]
+    lists += [[bytes([v])] for v in range(256) if bytes([v]) not in NS_ALPHABET]      # every byte value as a payload
     nshards = [lists[i::32] for i in range(32)]
     inputs.run_shards(ctx, ns_shard, nshards, part='netstring', rule=(
         'payload list x partial-send patterns (<= 2 short answers) for write_ns, x every chunking of the wire bytes for '
@@ -616,11 +705,15 @@ def run(ctx):
     cov = ctx.coverage
     cov['rule'] = 'see parts; one evaluation = one execution of the real socket code against one scripted environment'
     cov['exhaustive'] = True
-    cov['bounds'] = {'stream_alphabet': ['a', '|', '-'], 'max_stream_len': maxlen, 'quick_two_call_programs_on_streams_up_to': 3, 'recvsize': [1, 2, 'default'],
+    cov['bounds'] = {'byte_value_translations_of_the_alphabet (recv_until programs)': [repr(x) for x in TRANSLATIONS],
+                     'refused_calls': [repr(x) for x in REFUSED_CALLS] + ['send(data, 1)', 'sendall(data, MSG_OOB)'],
+                     'stream_alphabet': ['a', '|', '-'], 'max_stream_len': maxlen, 'quick_two_call_programs_on_streams_up_to': 3, 'recvsize': [1, 2, 'default'],
                      'maxsize': [2, 3, 'default'], 'timeouts_per_execution': maxspecial, 'program_len': 2,
                      'send_program_len': nops, 'netstring_payload_len': nmax}
     ctx.assumptions += ['the socket is any object with recv/send/settimeout/gettimeout (as the module documents)',
                         'a call that raised Timeout is retried until it completes',
+                        'a send/sendall/recv that raises ValueError for a non-zero flags argument is a refused call: its '
+                        'payload is not part of the accepted stream (the caller offers it again) and it hands out nothing',
                         'read_ns is explored under all chunkings but without timeouts inside one message',
                         'a write_ns interrupted by Timeout / a socket error is completed by flush() of the underlying '
                         'BufferedSocket (what a timed-out send had accepted stays in its send buffer)']
